@@ -31,6 +31,7 @@ RULES["C14"] = (
 )
 ASSUMPTIONS["C14"] = [
     "shapely area / bounds / centroid of a valid ring are trusted (tolerance 1e-9 relative plus 64 eps n |c| diag conditioning)",
+    "lengths: 1e-9 relative plus 8 eps |c| per chord end and per arc times the conditioning of its circumcircle (3/shortest edge + 2/height of the control triangle)",
     "arc discretisation follows the documented res.seg_angle=0.08 and >=4 points rule: discretised area within sum r^2/2(phi - m sin(phi/m)) of the exact value",
     "polygons are matched to constructed curves by bounding box (curves are separated by >=1.5% of their region radius by construction)",
     "dxf stores 12 significant digits (%.12g), svg 13 decimals (0.13f) and the arc radius exactly, dict stores float64 exactly",
@@ -69,6 +70,13 @@ def ring_stats(poly):
     return float(poly.area), b, c
 
 
+def pos_tol(D, cur=None):
+    """tolerance for a position (bounds, centroid) of one curve / of the drawing: 1e-9 of its own size plus the resolution
+    of the stored coordinates (eps |c|, times up to ~1e3 for the conditioning of a circumcentre)"""
+    diag = D.scale if cur is None else float(np.hypot(*(cur.bounds[1] - cur.bounds[0])))
+    return 1e-9 * diag + 4096 * EPS * D.cmax
+
+
 def cond_atol(D, cur, npts):
     diag = float(np.hypot(*(cur.bounds[1] - cur.bounds[0])))
     return 64 * EPS * max(npts, 8) * max(D.cmax, diag) * diag
@@ -82,7 +90,7 @@ def match_curves(D, boxes, sig, extra_tol=0.0):
         hits = []
         for i, cur in enumerate(D.curves):
             _, db = cur.disc_tol()
-            tol = 1e-9 * max(D.cmax, D.scale) + 1.01 * db + extra_tol
+            tol = pos_tol(D, cur) + 1.01 * db + extra_tol
             if np.abs(b - cur.bounds).max() <= tol:
                 hits.append(i)
         check(len(hits) == 1, sig + "|polygon_unmatched", lambda: f"polygon {k} with bounds {b.tolist()} matches constructed curves {hits} (expected exactly one) of {[c.bounds.tolist() for c in D.curves]}")
@@ -161,7 +169,7 @@ def analyse(p, D, sig, dfr, arcs_label, ext=None):
         # centroid: exact for polygons, from a 1500-point-per-arc reference otherwise; an inscribed discretisation moves it
         # by at most (lost area / area) * diameter
         diag = float(np.hypot(*(cur.bounds[1] - cur.bounds[0])))
-        ctol = 1e-9 * max(D.cmax, D.scale) + 2.0 * (1.01 * da + atol) / cur.area * diag + 2 * ext["delta"]
+        ctol = pos_tol(D, cur) + 2.0 * (1.01 * da + atol) / cur.area * diag + 2 * ext["delta"]
         check(np.abs(c - cur.centroid).max() <= ctol, sig + f"|curve_centroid|{'arc' if cur.has_arc else 'poly'}", lambda: f"curve {ci} ({cur.kind}): polygon centroid {c.tolist()} vs constructed {np.asarray(cur.centroid).tolist()} (tol {ctol:.3g})")
         fp["curves"][ci] = (a, b, c, npts)
     # roots / body count / nesting
@@ -200,7 +208,9 @@ def analyse(p, D, sig, dfr, arcs_label, ext=None):
     area = float(p.area)
     check(abs(area - D.area) <= a_tol, sig + f"|area|{arcs_label}", lambda: f"area {area!r} vs sum (-1)^depth A_i = {D.area!r} (tol {a_tol:.3g})")
     length = float(p.length)
-    l_tol = 1e-9 * D.length + ext["length"]
+    # coordinates are stored to eps * |c|: the length moves by that much per chord end, times the conditioning of the
+    # circumcircle for an arc (a 2e-6 drawing translated by 10 has 1e-9 relative resolution)
+    l_tol = 1e-9 * D.length + ext["length"] + len_atol(D)
     # exact length: straight part and arc part separately (different root causes)
     V = np.asarray(p.vertices)
     l_lines = float(sum(e.length(V) for e in p.entities if isinstance(e, Line)))
@@ -213,7 +223,7 @@ def analyse(p, D, sig, dfr, arcs_label, ext=None):
     # bounds
     pb = np.asarray(p.bounds, dtype=np.float64)
     db_all = max(c.disc_tol()[1] for c in D.curves)
-    check(pb.shape == (2, 2) and np.abs(pb - D.bounds).max() <= 1e-9 * max(D.cmax, D.scale) + 1.01 * db_all + 2 * ext["delta"], sig + f"|bounds|{arcs_label}", lambda: f"{pb.tolist()} vs {D.bounds.tolist()}")
+    check(pb.shape == (2, 2) and np.abs(pb - D.bounds).max() <= pos_tol(D) + 1.01 * db_all + 2 * ext["delta"], sig + f"|bounds|{arcs_label}", lambda: f"{pb.tolist()} vs {D.bounds.tolist()}")
     fp["area"] = area
     fp["length"] = length
     fp["l_lines"] = l_lines
@@ -221,8 +231,12 @@ def analyse(p, D, sig, dfr, arcs_label, ext=None):
     return fp
 
 
+def len_atol(D):
+    return 8 * EPS * D.cmax * D.len_cond
+
+
 def match_one(D, b, sig, extra=0.0):
-    hits = [i for i, cur in enumerate(D.curves) if np.abs(b - cur.bounds).max() <= 1e-9 * max(D.cmax, D.scale) + 1.01 * cur.disc_tol()[1] + extra]
+    hits = [i for i, cur in enumerate(D.curves) if np.abs(b - cur.bounds).max() <= pos_tol(D, cur) + 1.01 * cur.disc_tol()[1] + extra]
     check(len(hits) == 1, sig, lambda: f"ring with bounds {b.tolist()} matches curves {hits}")
     return hits[0]
 
@@ -240,12 +254,12 @@ def compare_fp(D, a, b, sig, what, area_scale=1.0, len_scale=1.0, loose=0.0, red
         if same_coords and not rediscretised:
             # same coordinates on both sides: the polygons coincide (matched by bounds and centroid); a closed Arc may be
             # discretised from another start angle (an equally valid inscribed regular polygon with the same centroid)
-            pt = 1e-9 * max(D.cmax, D.scale) + 2 * loose
+            pt = pos_tol(D, cur) + 2 * loose
             check(np.abs(B0 - B1).max() <= pt + (1.01 * cur.disc_tol()[1] if cur.kind == "circle" else 0.0), sig + "|curve_bounds", lambda: f"{what}: curve {ci}: bounds {B0.tolist()} vs {B1.tolist()}")
             check(np.abs(C0 - C1).max() <= pt + 2.0 * at / max(A1, 1e-300) * float(np.hypot(*(cur.bounds[1] - cur.bounds[0]))), sig + "|curve_centroid", lambda: f"{what}: curve {ci}: centroid {C0.tolist()} vs {C1.tolist()}")
     da = sum(1.01 * c.disc_tol()[0] for c in D.curves) if rediscretised else 0.0
     check(abs(a["area"] * s2 - b["area"]) <= 1e-9 * sum(c.area for c in D.curves) * s2 + sum(cond_atol(D, c, 100) for c in D.curves) * max(s2, 1.0) + loose * D.length * s1 * s1 + da, sig + "|area", lambda: f"{what}: area {a['area'] * s2!r} vs {b['area']!r}")
-    check(abs(a["length"] * s1 - b["length"]) <= 1e-9 * b["length"] + loose * 4 * D.n * s1, sig + "|length", lambda: f"{what}: length {a['length'] * s1!r} vs {b['length']!r}")
+    check(abs(a["length"] * s1 - b["length"]) <= 1e-9 * b["length"] + loose * 4 * D.n * s1 + 2 * len_atol(D), sig + "|length", lambda: f"{what}: length {a['length'] * s1!r} vs {b['length']!r}")
     check(sorted(a["full"]) == sorted(b["full"]) and all(a["full"][k][1] == b["full"][k][1] for k in a["full"]), sig + "|nesting", f"{what}: {a['full']} vs {b['full']}")
 
 
@@ -392,6 +406,7 @@ class TransformedDrawing:
         self.body_count = D.body_count
         self.area = D.area * s * s
         self.length = D.length * s
+        self.len_cond = D.len_cond
         self.has_arcs = D.has_arcs
         self.nested = D.nested
         self.max_depth = D.max_depth
@@ -521,7 +536,7 @@ def b_roundtrip(case, ctx):
         fp0 = analyse(p, D, sig + "|original", dfr, al)
         check(len(q.entities) == n_ent, sig + "|entity_count", f"{len(q.entities)} entities after reload, {n_ent} before")
         compare_fp(D, fp0, fq, sig + f"|measures|{al}", f"{fmt} reload", loose=slack["delta"] + (slack["area"] * D.n / max(D.length, 1e-300)), same_coords=True)
-        check(abs(fq["length"] - fp0["length"]) <= 1e-9 * fp0["length"] + slack["length"], sig + f"|length|{al}", f"{fq['length']!r} vs {fp0['length']!r}")
+        check(abs(fq["length"] - fp0["length"]) <= 1e-9 * fp0["length"] + slack["length"] + 2 * len_atol(D), sig + f"|length|{al}", f"{fq['length']!r} vs {fp0['length']!r}")
         dfr.flush()
 
 
